@@ -714,6 +714,76 @@ do_oracle (long *v, int nv)
 }
 
 /* ------------------------------------------------------------------ */
+/* kind 17: internationalised domain [17, mustReject, n, U-domain bytes..] - C10.
+ * The A-label spelling comes from the converter (environment); the relation between the library's
+ * treatment of the two spellings is what is checked. */
+static void
+run_dom (int m, int tld, const unsigned char *dom, int n, int *rc, int *fl, int *idn)
+{
+    static long buf[70000];
+    const char *p;
+    eav_result_t *r;
+    buf[0] = 'a'; buf[1] = '@';
+    for (int i = 0; i < n; i++) buf[2 + i] = dom[i];
+    p = place (buf, n + 2, tld, -1);
+    r = emails[m].f (p, n + 2, tld);
+    *rc = r->rc; *idn = r->idn_rc;
+    *fl = (r->is_ipv4 ? 1 : 0) | (r->is_ipv6 ? 2 : 0) | (r->is_domain ? 4 : 0);
+    eav_result_free (r);
+    unplace ();
+    cnt.calls++;
+}
+
+static void
+do_idn (long *v, int nv)
+{
+    int must_reject = (int) v[1], n = (int) v[2];
+    unsigned char *u = malloc (n + 1);
+    char *a = NULL;
+    int code;
+    if (nv != 3 + n) die ("bad idn vector");
+    for (int i = 0; i < n; i++) u[i] = (unsigned char) v[3 + i];
+    u[n] = 0;
+    code = idn2_to_ascii_8z ((char *) u, &a, IDN2_NONTRANSITIONAL);
+    for (int tld = 0; tld < 2; tld++) {
+        int rcU, flU, idnU;
+        run_dom (3, tld, u, n, &rcU, &flU, &idnU);
+        cnt.checked++; cnt.pinned++;
+        if (must_reject && rcU >= 0)
+            viol ("idn", "domain violating UTF-8 / IDNA2008 accepted", 6531, tld, v + 3, n, 0, rcU, code);
+        if (code != IDN2_OK) {
+            if (rcU != -EEAV_IDN_ERROR || flU != 0 || idnU != code)
+                viol ("idn", "converter refused the domain but the address is not rejected as an IDN error", 6531, tld, v + 3, n, -EEAV_IDN_ERROR, rcU, code);
+        } else {
+            int na = (int) strlen (a), rcA, flA, idnA;
+            run_dom (3, tld, (unsigned char *) a, na, &rcA, &flA, &idnA);
+            cnt.checked++; cnt.pinned++;
+            if (rcA != rcU || flA != flU)
+                viol ("idn", "U-label and A-label spellings treated differently in mode 6531", 6531, tld, v + 3, n, rcU, rcA, flA);
+            for (int m = 0; m < 3; m++) {
+                int rcM, flM, idnM;
+                run_dom (m, tld, (unsigned char *) a, na, &rcM, &flM, &idnM);
+                cnt.checked++; cnt.pinned++;
+                if (rcM != rcA || (flM != flA && rcA >= 0))
+                    viol ("idn", "ASCII mode treats the A-label spelling differently from mode 6531", emails[m].mode, tld, v + 3, n, rcA, rcM, flM);
+            }
+        }
+    }
+    /* trace event for TLC: the converter's answer and the library's outcome (validated by Trace_Func.EmailOk) */
+    {
+        static long buf[70000];
+        int rc, fl, idn;
+        run_dom (3, 1, u, n, &rc, &fl, &idn);
+        buf[0] = 'a'; buf[1] = '@';
+        for (int i = 0; i < n; i++) buf[2 + i] = u[i];
+        cnt.drift++;
+        email_event (f_drift, 0, 6531, 1, buf, n + 2, rc, fl, idn, 0, 0);
+    }
+    if (a) idn2_free (a);
+    free (u);
+}
+
+/* ------------------------------------------------------------------ */
 int
 main (int argc, char **argv)
 {
@@ -745,6 +815,7 @@ main (int argc, char **argv)
         case 13: do_robust (v, nv, 1); break;
         case 15: do_table (); break;
         case 16: do_oracle (v, nv); break;
+        case 17: do_idn (v, nv); break;
         case 14: do_robust (v, nv, 0); break;
         case 10: do_defaults (v, nv); break;
         case 11: do_policy_addr (v, nv); break;
